@@ -154,6 +154,19 @@ async def execute(net, hyg, plan):
                 reuse = bool(marks) and s.pasv_port is not None and (fired["n"] or 0) % 2 == 0
                 # every other time the passive listener of the failed transfer serves the next ones (no new PASV/EPSV)
                 probe = [st2 for st2 in PROBE if st2 != ["epsv"]] if reuse else PROBE
+                # the failed command itself works when it is simply given again (nothing of the failed attempt lingers)
+                redo = None
+                if st[0] == "xfer" and st[1] in ("STOR", "APPE") and not marks and s.alive:
+                    mon["retry_same_command"] = mon.get("retry_same_command", 0) + 1
+                    if not reuse or True:
+                        await s.step(["epsv"])
+                    await s.step(list(st))
+                    redo = [c for c in s.outcomes[-1] if len(c) == 3 and c.isdigit()]
+                    if redo[-1:] != ["226"] and not (redo and redo[0][0] == "5" and redo[0][:2] != "45"):
+                        viol.append({"key": f"retry-refused:{site}", "msg": f"{where}: the same command given again answered {s.outcomes[-1]}"})
+                    before = len(s.outcomes)
+                    reuse = False
+                    probe = PROBE
                 for st2 in probe:
                     if not await s.step(st2):
                         break
